@@ -19,6 +19,12 @@ itself or a copy; invariants SeqParamCurrent / SeqSameParamSameValue / SeqArgsUn
 DevAssembleSkipsSameObject); "ginp" = the arrays handed over as grids stay with the caller (MutateGrid in place, Reassign = the
 same array handed over again; deviation DevSetterSkipsSameObject).  Between an in-place modification of a grid array and the
 next hand-over nothing is documented: those observations are recorded (ctx.observations), never compared.
+"order" = THE ORDER OF THE OBSERVATION GRID / TIMES is the user's: grid_obs / time_obs reversed, permuted, unsorted sub-selections of
+the solution nodes / time levels, repeated nodes, points between the nodes in non-ascending order - at construction and through
+SetGridObs / SetGridSol / SetTimeObs; observed[k] is the value at grid_obs[k] (named deviation DevObserveInSolutionOrder: a mask of
+the solution nodes -> solution-grid order, must violate SeqObserveCurrent).  The same grids / times are cases of the kinds sobs /
+tobs (polynomial data), steady (omode perm / pick) and time (explu / finalrev).  A refusal of a repeated node / time is an
+observation; a refusal of an unsorted sequence is a mismatch `.../refused_not_ascending` (open finding C18-F2 for the time class).
 """
 META = {
     "claimed": True,
@@ -51,7 +57,16 @@ META = {
              "new values (deviation 'setter given the array it holds keeps the cached flag' must violate SeqObserveCurrent). Every "
              "behaviour is replayed on one real object with two real arrays modified in place; after every call the result is compared "
              "with TLC's exact value for the parameter of THAT call, with the first result for the same value, and the caller's arrays "
-             "with the spec's heap."),
+             "with the spec's heap. "
+             "Order of the observation grid / times (mode order and the grids rev / perm / subu / rep / repu / shiftu / mixu, times allrev "
+             "/ subu / finu / rep / shiftu / mixu of the one-shot kinds, omodes perm / pick / explu / finalrev): grid_obs and time_obs "
+             "are sequences in an order of the user's choice - reversed, permuted, unsorted sub-selections of the solution nodes / time "
+             "levels, repeated nodes, points between the nodes in non-ascending order, at construction and through SetGridObs / "
+             "SetGridSol / SetTimeObs on an object that has observed before; the specification looks every observation node / time up "
+             "(observed[i][j] = value at grid_obs[i], time_obs[j]; SeqObserveCurrent, SteadyObserve, TobsExact, SobsExact), "
+             "SeqOrderVisible guarantees that another order is another observation, and the named deviation 'observation nodes that "
+             "are all solution nodes are read off with a mask of the solution grid' must violate SeqObserveCurrent. Replayed on both "
+             "PDE classes, with and without observation map, through observe() and PDEModel.forward (steady: also its Jacobian)."),
     "note": ("Bounded sizes (2-4 nodes for solve, 5x5 nodes for observation); interpolation on non-polynomial data at non-coinciding "
              "points is not specified. 'all'/explicit observation needs >= 4 nodes and >= 4 time levels in the code (bicubic spline); "
              "smaller grids are recorded as an observation only. PDEModel with matrix-valued observations (several times) is "
@@ -66,7 +81,10 @@ META = {
              "modification of the parameter BETWEEN assemble and solve (without a new assemble) and an observation after an in-place "
              "modification of a grid array that was not handed over again are not documented - not in the model / recorded as "
              "observation; that a call does not modify the caller's arrays is asserted (the result would not belong to the supplied "
-             "parameter)."),
+             "parameter). Order mode: <= 3 (quick) / 4 (thorough) calls; whether a node / time given TWICE is accepted is not documented "
+             "(a refusal is recorded as observation, an accepted call is compared); a refusal of an unsorted grid / times is a "
+             "mismatch (TimeDependentLinearPDE on the unchanged tree: open finding C18-F2, so these cases are compared only where the "
+             "library returns - final time on the solution grid, repeated ascending nodes - until the proposed fix is applied)."),
     "technique": "TLA+ spec (PDE) model-checked with TLC; TLC-emitted problems and exact rational trajectories replayed into cuqi.pde / PDEModel",
 }
 
@@ -136,6 +154,31 @@ def _quiet(fn):
             return fn()
 
 
+def _refused(ctx, order, sig, case, what, ex, expected=None, detail=None):
+    # sig: function tag -> signature
+    """An observation call raised.  `order` = the spec's class of the observation grid / times of that call:
+    "asc"      - as before: a mismatch `.../raises`;
+    "repeated" - a node / time given twice: whether the library accepts that is not documented; a refusal is an observation
+                 (an ACCEPTED call has to return the values in the order of the observation grid);
+    "unsorted" - no repeat, not ascending: the docstrings leave the order of grid_obs / time_obs to the user ('the grid on which
+                 the observed solution should be interpolated', 'an array of the times at which the solution is observed'), so a
+                 refusal is a mismatch with its own signature `.../refused_not_ascending`."""
+    if order == "repeated":
+        d = ctx.observations.setdefault("observe_with_repeated_node_or_time_refused", {})
+        k = "%s (%s)" % ("/".join(sig("refused").split("/")[:3]), type(ex).__name__)
+        d[k] = d.get(k, 0) + 1
+        return
+    if order == "unsorted":
+        # (the tag only names the signature - both are mismatches: `refused_...` = a ValueError that says the nodes / times have to
+        # be increasing, i.e. the input is refused as such; anything else that is raised for such an input = `raises_...`)
+        tag = "refused_not_ascending" if isinstance(ex, ValueError) and "increasing" in str(ex) else "raises_not_ascending"
+        ctx.mismatch(sig(tag), case, "%s raised %r for an observation grid / observation times that are not in "
+                     "ascending order (the order is the user's choice; observed[k] belongs to grid_obs[k])" % (what, ex), expected,
+                     repr(ex), detail=detail)
+        return
+    ctx.mismatch(sig("raises"), case, "%s raised %r" % (what, ex), expected, detail=detail)
+
+
 # ----------------------------------------------------------------------------------------------------------
 def check_steady(ctx, cuqi, c, idx):
     n = c["n"]
@@ -156,7 +199,7 @@ def check_steady(ctx, cuqi, c, idx):
     kwargs = {"tag": 3} if idx % 2 == 0 else None
     use_default = (c["ret"] == 0 and idx % 3 == 0)
     pde_kw = dict(grid_sol=grid, observation_map=_omap(c["omap"]))
-    if c["omode"] == "other" or idx % 2 == 0:
+    if c["omode"] != "same" or idx % 2 == 0:
         pde_kw["grid_obs"] = gobs                      # 'same': passing the identical grid == passing None
     if not use_default:
         pde_kw["linalg_solve"] = _solver(c["ret"], slog)
@@ -212,8 +255,8 @@ def check_steady(ctx, cuqi, c, idx):
     else:
         good = _close(obs, fwd_exp, 1e-9)
     if not good:
-        ctx.mismatch(key + "/observe", c, "observe() is not the restriction / interpolant at the observation grid followed by the "
-                     "observation map", fwd_exp, obs)
+        ctx.mismatch(key + "/observe", c, "observe() is not the restriction / interpolant at the observation grid (observed[k] = value "
+                     "at grid_obs[k], in the order of grid_obs=%s) followed by the observation map" % gobs.tolist(), fwd_exp, obs)
     # PDEModel = Observe o Solve o Assemble
     try:
         # a fresh PDE object whose FIRST assembly is for another parameter (a retained parameter / system would show)
@@ -296,6 +339,9 @@ def check_time(ctx, cuqi, c, idx):
             kw["grid_obs"] = x.copy()
     elif c["omode"] == "all":
         kw["time_obs"] = "all" if idx % 2 else T.copy()
+    elif c["omode"] == "finalrev":          # the solution nodes reversed, final time
+        kw["time_obs"] = "final" if idx % 2 else tobs
+        kw["grid_obs"] = gobs
     else:
         kw["time_obs"] = tobs
         kw["grid_obs"] = gobs
@@ -376,17 +422,18 @@ def check_time(ctx, cuqi, c, idx):
     try:
         obs = np.asarray(_quiet(lambda: pde.observe(u)), dtype=float)
     except Exception as e:
-        ctx.mismatch(okey + "/raises", c, "observe raised %r" % (e,), obs_exp)
+        _refused(ctx, c.get("order", "asc"), lambda tag: okey + "/" + tag, c, "observe", e, obs_exp)
         return
     tol = RTOL if c["omode"] == "final" else 1e-9
     if not _close(obs, _apply(c["omap"], _restrict(u, x, T, gobs, tobs)), tol) or not _close(obs, obs_exp, 1e-9):
-        ctx.mismatch(okey, c, "observe() is not the solution restricted to the (coinciding) observation nodes and times followed by "
-                     "the observation map", obs_exp, obs)
-    if c["omode"] == "final":
+        ctx.mismatch(okey, c, "observe() is not the solution restricted to the (coinciding) observation nodes and times - row i = node "
+                     "grid_obs[i], column j = time time_obs[j] (grid_obs=%s time_obs=%s) - followed by the observation map"
+                     % (gobs.tolist(), tobs.tolist()), obs_exp, obs)
+    if c["omode"] in ("final", "finalrev"):
         ctx.case(("time-model", c["A0"], c["T"], c["th"], method, c["omap"]), facet="model/time")
         try:
             pde_m = cuqi.pde.TimeDependentLinearPDE(form, **kw)       # fresh object, first assembled for another parameter
-            model = _quiet(lambda: cuqi.model.PDEModel(pde_m, range_geometry=n, domain_geometry=2))
+            model = _quiet(lambda: cuqi.model.PDEModel(pde_m, range_geometry=len(gobs), domain_geometry=2))
             _quiet(lambda: model.forward(th + 1.0))
             y = np.asarray(_quiet(lambda: model.forward(th)), dtype=float)
         except Exception as e:
@@ -452,12 +499,13 @@ def check_tobs(ctx, cuqi, c, idx):
         pde = cuqi.pde.TimeDependentLinearPDE(lambda p, t: (np.eye(len(x)), np.zeros(len(x)), np.zeros(len(x))), **kw)
         obs = np.asarray(_quiet(lambda: pde.observe(data.copy())), dtype=float)
     except Exception as e:
-        ctx.mismatch(key + "/raises", c, "observe raised %r" % (e,), exp)
+        _refused(ctx, c.get("order", "asc"), lambda tag: key + "/" + tag, c, "observe", e, exp)
         return
     exact = c["g"] == "same" and c["t"] == "final"
     if (exact and c["omap"] == "id" and not np.array_equal(obs, data[:, -1])) or not _close(obs, exp, 1e-9):
-        ctx.mismatch(key, c, "observe() of polynomial data is not p(x_obs, t_obs) (restriction at coinciding nodes/times, "
-                     "polynomial-reproducing interpolation otherwise) followed by the observation map", exp, obs)
+        ctx.mismatch(key, c, "observe() of polynomial data is not p(x_obs[i], t_obs[j]) (restriction at coinciding nodes/times, "
+                     "polynomial-reproducing interpolation otherwise; in the order of grid_obs=%s and time_obs=%s) followed by the "
+                     "observation map" % (gobs.tolist(), tobs.tolist()), exp, obs)
 
 
 def check_sobs(ctx, cuqi, c, idx):
@@ -472,10 +520,11 @@ def check_sobs(ctx, cuqi, c, idx):
         pde = cuqi.pde.SteadyStateLinearPDE(lambda p: (np.eye(len(x)), np.zeros(len(x))), **kw)
         obs = np.asarray(_quiet(lambda: pde.observe(data.copy())), dtype=float)
     except Exception as e:
-        ctx.mismatch(key + "/raises", c, "observe raised %r" % (e,), exp)
+        _refused(ctx, c.get("order", "asc"), lambda tag: key + "/" + tag, c, "observe", e, exp)
         return
     if (c["g"] == "same" and c["omap"] == "id" and not np.array_equal(obs, data)) or not _close(obs, exp, 1e-9):
-        ctx.mismatch(key, c, "observe() of quadratic data is not p(x_obs) followed by the observation map", exp, obs)
+        ctx.mismatch(key, c, "observe() of quadratic data is not p(x_obs[k]), k in the order of grid_obs=%s, followed by the "
+                     "observation map" % gobs.tolist(), exp, obs)
 
 
 # ----------------------------------------------------------------------------------------------------------
@@ -483,7 +532,8 @@ def check_sobs(ctx, cuqi, c, idx):
 SEQ_ACTIONS = ("set_grid_obs", "set_grid_sol", "set_time_obs", "assemble", "solve", "observe", "forward")
 # modes of the sequence kinds: "grid" (setters, new arrays), "param" (parameter arrays with an identity: in-place modification,
 # the array itself / a copy), "ginp" (grid arrays with an identity: in-place modification, the same array handed over again)
-SEQ_BASE = {"grid": "seq/%s/%s", "param": "seq/inplace/%s/%s", "ginp": "seq/gridinplace/%s/%s"}
+# "order" (observation grids / times in an order of the user's choice: reversed, permuted, unsorted sub-selections, repeated)
+SEQ_BASE = {"grid": "seq/%s/%s", "param": "seq/inplace/%s/%s", "ginp": "seq/gridinplace/%s/%s", "order": "seq/order/%s/%s"}
 SEQ_CLASS = {"sseq": "steady", "tseq": "time"}
 
 
@@ -535,7 +585,7 @@ def check_seq(ctx, cuqi, c, idx):
     m = c["m"]
     base = SEQ_BASE[mode] % ((kind, via) if mode == "grid" else (SEQ_CLASS[kind], via))
     ident = (kind, via, c["go0"], c["to0"], c["omap"]) + (() if mode == "grid" else (mode,))
-    fac = "seq/%s" % kind if mode == "grid" else "seq/%s/%s" % ({"param": "inplace", "ginp": "gridinplace"}[mode], kind)
+    fac = "seq/%s" % kind if mode == "grid" else "seq/%s/%s" % ({"param": "inplace", "ginp": "gridinplace", "order": "order"}[mode], kind)
     calls = []
     if steady:
         A0, A1, A2 = (np.array(m[k], dtype=float) for k in ("A0", "A1", "A2"))
@@ -611,6 +661,22 @@ def check_seq(ctx, cuqi, c, idx):
                             [_q(q) for q in e["gs"]], [_q(q) for q in e["go"]], "" if steady else " time_obs=%s" % [_q(q) for q in e["to"]]),
                          exp, got, detail={"step": len(path)})
         return good
+
+    def attempt(e, fn, what):
+        """an observation call; a refusal is classified by the spec's `order` of the current observation grid / times (see _refused):
+        ascending -> re-raised (mismatch `raises`, the behaviour ends), repeated -> observation, unsorted -> mismatch
+        `refused_not_ascending`; in the last two cases the behaviour goes on (a refused observation changes nothing)"""
+        try:
+            return True, fn()
+        except Exception as ex:
+            from cuqiverif.core import MachineryError
+            if isinstance(ex, MachineryError) or e.get("order", "asc") == "asc":
+                raise
+            _refused(ctx, e["order"], lambda tag: sig("%s_%s" % (a, tag)), c,
+                     "%s after %s (grid_obs=%s%s)" % (what, ".".join(path[:-1]) or "construction", [_q(q) for q in e["go"]],
+                                                      "" if steady else " time_obs=%s" % [_q(q) for q in e["to"]]),
+                     ex, _seq_expected_obs(c, e), detail={"step": len(path), "path": ".".join(path)})
+            return False, None
 
     def undefined_obs(e, fn):
         """mode "ginp", an array handed over as a grid was modified in place and not handed over again: neither documented nor
@@ -713,8 +779,10 @@ def check_seq(ctx, cuqi, c, idx):
             elif a == "observe":
                 if not defined:
                     undefined_obs(e, lambda: _quiet(lambda: pde.observe(sol)))
-                elif not compare_obs(e, _quiet(lambda: pde.observe(sol)), sol, "observe()", "observe_value"):
-                    return
+                else:
+                    ok, y = attempt(e, lambda: _quiet(lambda: pde.observe(sol)), "observe()")
+                    if ok and not compare_obs(e, y, sol, "observe()", "observe_value"):
+                        return
             elif a == "pipeline":
                 # mode "param", on the PDE object: assemble(array) - solve() - observe(solution), compared after each of the three calls
                 src = heap[e["arg"][0]]
@@ -774,12 +842,12 @@ def check_seq(ctx, cuqi, c, idx):
                 if not defined:
                     undefined_obs(e, fn)
                 else:
-                    y = fn()
+                    ok, y = attempt(e, fn, what)
                     if mode == "param":
                         what = "PDEModel.forward(%s)" % e["arg"]
-                    if not compare_obs(e, y, None, what, "forward_value"):
+                    if ok and not compare_obs(e, y, None, what, "forward_value"):
                         return
-                    if mode == "param":
+                    if ok and mode == "param":
                         check_value_repeat(e, y, "repeat_value")
             else:
                 from cuqiverif.core import MachineryError
@@ -904,7 +972,8 @@ def run(ctx):
     cuqi = _pde_mod()
     # named deviation -> the invariant it has to violate on the model
     devs = {"OperatorAtOldTime": "DiscreteEquation", "DtFromNextInterval": "DiscreteEquation", "StaleGridFlag": "SeqObserveCurrent",
-            "AssembleSkipsSameObject": "SeqParamCurrent", "SetterSkipsSameObject": "SeqObserveCurrent"}
+            "AssembleSkipsSameObject": "SeqParamCurrent", "SetterSkipsSameObject": "SeqObserveCurrent",
+            "ObserveInSolutionOrder": "SeqObserveCurrent"}
     wd = lambda label: os.path.join(_tlc.WORK, "PDE-c18-%s-%d" % (label, os.getpid()))
     # the (small) deviation runs are started together with the main run (JVM starts in sequence cost minutes on a loaded machine)
     pool = concurrent.futures.ThreadPoolExecutor(max_workers=len(devs))
@@ -947,6 +1016,32 @@ def run(ctx):
                        if not any(_seq_has(c, pred) for c in mine if c.get("mode") == ("ginp" if "grid" in name else "param"))]
             if missing:
                 raise MachineryError("vacuous model: no %s/%s behaviour with the pattern(s) %r" % (k, via, missing))
+            # mode "order": an observation of an object CONSTRUCTED with an unsorted observation grid, and one after each setter
+            # chose an unsorted / repeated grid (times) on an object that has observed before
+            omine = [c for c in mine if c.get("mode") == "order"]
+            need = {"new[unsorted].observe": lambda c: c["hist"][0]["a"] in ("observe", "forward") and c["hist"][0]["order"] == "unsorted",
+                    "observe.set_grid_obs[unsorted].observe": lambda c: _seq_has(c, lambda a, b, d: (
+                        a["a"] in ("observe", "forward") and b["a"] == "set_grid_obs" and b["order"] == "unsorted"
+                        and d["a"] in ("observe", "forward"))),
+                    "set_grid_obs[repeated].observe": lambda c: _seq_has(c, lambda a, b: (
+                        a["a"] == "set_grid_obs" and a["order"] == "repeated" and b["a"] in ("observe", "forward"))),
+                    "set_grid_obs[unsorted].set_grid_sol.observe": lambda c: _seq_has(c, lambda a, b, d: (
+                        a["a"] == "set_grid_obs" and b["a"] == "set_grid_sol" and b["order"] == "unsorted"
+                        and d["a"] in ("observe", "forward")))}
+            if k == "tseq":
+                need["set_time_obs[unsorted].observe"] = lambda c: _seq_has(c, lambda a, b: (
+                    a["a"] == "set_time_obs" and a["order"] == "unsorted" and b["a"] in ("observe", "forward")))
+            missing = [name for name, pred in need.items() if not any(pred(c) for c in omine)]
+            if missing:
+                raise MachineryError("vacuous model: no %s/%s behaviour of mode order with the pattern(s) %r" % (k, via, missing))
+    # the ORDER grids / times of the one-shot kinds
+    for kind_, field, vals in (("sobs", "g", ("rev", "perm", "subu", "rep", "repu", "shiftu", "mixu")),
+                               ("tobs", "g", ("rev", "perm", "subu", "rep", "repu", "shiftu", "mixu")),
+                               ("tobs", "t", ("allrev", "subu", "finu", "rep", "shiftu", "mixu")),
+                               ("steady", "omode", ("perm", "pick")), ("time", "omode", ("explu", "finalrev"))):
+        have = set(c[field] for c in cases if c["kind"] == kind_)
+        if set(vals) - have:
+            raise MachineryError("vacuous model: no %s case with %s in %r" % (kind_, field, sorted(set(vals) - have)))
     chosen, sampled = _seq_select(ctx, seqs)
     cases = [c for c in cases if c["kind"] not in ("sseq", "tseq")] + chosen
     counts = _dispatch(ctx, cuqi, cases)
@@ -965,13 +1060,19 @@ def run(ctx):
     ex = [c for c in chosen if c["kind"] == "sseq" and c.get("mode") == "param" and _seq_has(c, _SEQ_PATTERNS["use(X).mutate(X).use(X)"])]
     if ex:
         ctx.sample({"case": {kk: vv for kk, vv in ex[0].items() if kk != "m"}}, limit=7)
-    ctx.observe("seq_behaviours_by_mode", {md: sum(1 for c in chosen if c.get("mode", "grid") == md) for md in ("grid", "param", "ginp")})
+    ex = [c for c in chosen if c["kind"] == "sseq" and c.get("mode") == "order" and c["go0"] == "none"
+          and [e["a"] for e in c["hist"]] == ["observe", "set_grid_obs", "observe"] and c["hist"][1]["arg"] == "subu"]
+    if ex:
+        ctx.sample({"case": {kk: vv for kk, vv in ex[0].items() if kk != "m"}}, limit=8)
+    ctx.observe("seq_behaviours_by_mode", {md: sum(1 for c in chosen if c.get("mode", "grid") == md) for md in ("grid", "param", "ginp", "order")})
+    ctx.observe("cases_by_order_of_observation_grid_and_times",
+                {o: sum(1 for c in cases if c["kind"] not in ("sseq", "tseq") and c.get("order") == o) for o in ("asc", "repeated", "unsorted")})
     ctx.rule = ("one case per problem emitted by TLC from PDE.tla (steady: matrices, theta, solver return shape, observation grid/map with "
                 "exact A, f, u, forward value and Jacobian; time: matrices, non-uniform grid, theta, method, observation mode with the "
                 "exact trajectory and the assembly times; tobs/sobs: polynomial data with exact observed values; sseq/tseq: one "
                 "behaviour = one sequence of <= SeqDepth calls on one PDE object / PDEModel with the exact value of every call, in the "
                 "modes grid (setters) / param (parameter arrays modified in place, itself or copy) / ginp (grid arrays modified in place "
-                "and handed over again)); "
+                "and handed over again) / order (observation grids / times reversed, permuted, unsorted sub-selections, repeated)); "
                 "distinct = problem x comparison group (solve, observe, model forward, gradient variant; sequences: every prefix)")
     ctx.exhaustive = not sampled
     ctx.traces = counts.get("time", 0) + len(chosen)
